@@ -150,6 +150,13 @@ CLAIMED = {
         "note": "Trusted: scripted inotify_event bytes per inotify(7) stand for the kernel; the OS seam; detsched shims. 'In time' is judged at the reader's processing step, which coincides with the read under the scheduler.",
         "technique": "TLA+ model checking (TLC) + trace validation of the real buffer fed scripted native sequences under a deterministic scheduler",
     },
+    "C20": {
+        "engine": "xlat",
+        "design_ref": "DESIGN.md §4.6, §7 C20",
+        "text": "WinXlat.tla and FSEventsXlat.tla model the translation tables of WindowsApiEmitter.queue_events and FSEventsEmitter.queue_events over native batches generated from an abstract file system (XlatCommon.tla: operations, pacing, total Apply, per-operation contract), Codec.tla the framing of the two binary buffers; TLC checks replica / rename-contract / move-in-out / non-recursive clauses exhaustively for <=2 (quick) / <=4 (thorough) operations with all FSEvents coalescings and batch cuts, and every recorded defect switched on must be refuted by its negative configuration. The real emitters are imported on Linux through shims (fake ctypes.WinDLL, fake _watchdog_fsevents deriving its flags from the public kFSEventStreamEventFlag* bits), operations are executed on a real scratch tree, a documented-semantics simulator renders them into native batches fed to the real queue_events, and TLC validates the queued events against XlatTrace.tla; decoder round trips feed encoded record sequences to the real _parse_event_buffer functions. Known findings W2, F1-F4 are matched by their own signatures; W1 and W3 were repaired.",
+        "note": "Limits, as the property itself says: native streams come from a simulator of the documented OS semantics, not from Windows/macOS; on this LP64 platform DWORD is 8 bytes, so the Windows buffer is encoded with the module's own FileNotifyInformation layout (cursor logic checked, ABI width not); scratch trees on tmpfs.",
+        "technique": "TLA+ model checking (TLC) + trace validation of the real translation layers fed simulated native batches",
+    },
 }
 
 NOT_YET = "check not built yet (in progress, see DESIGN.md §12)"
